@@ -1,6 +1,7 @@
 CFG = dict(
     lean_modules=["SaramaVerif.Model.Producer", "SaramaVerif.Props.C01", "SaramaVerif.Props.C18", "SaramaVerif.Model.Feeder", "SaramaVerif.Props.C18c"],
     lean_support=["SaramaVerif.Driver.ProducerTrace"],
+    confirm_scenario_diffs=True,
     model="C18",
     overlay=["sim", "c18"],
     required_theorems=["Props.C18c.step_inv", "Props.C18c.consumer_interceptors_once", "Props.C18c.deliver_follows_icept", "Props.C18c.one_ack_per_response", "Props.C18c.nothing_after_closed",
